@@ -189,13 +189,44 @@ func short(v interface{}) string {
 	return string(b)
 }
 
+// describe names the entries of a map-valued field that differ (the whole value otherwise)
+func describe(f string, a, b interface{}) string {
+	am, ok1 := a.(map[string]interface{})
+	bm, ok2 := b.(map[string]interface{})
+	if !ok1 && a != nil || !ok2 && b != nil || (a == nil && b == nil) {
+		return fmt.Sprintf("%s: spec=%s real=%s", f, short(a), short(b))
+	}
+	keys := map[string]bool{}
+	for k := range am {
+		keys[k] = true
+	}
+	for k := range bm {
+		keys[k] = true
+	}
+	ks := make([]string, 0, len(keys))
+	for k := range keys {
+		ks = append(ks, k)
+	}
+	sort.Strings(ks)
+	out := ""
+	for _, k := range ks {
+		if !reflect.DeepEqual(am[k], bm[k]) {
+			if out != "" {
+				out += "; "
+			}
+			out += fmt.Sprintf("%s[%s]: spec=%s real=%s", f, k, short(am[k]), short(bm[k]))
+		}
+	}
+	return out
+}
+
 // diff returns the first field on which the specification's state and the real one differ
 func (x *expect) diff(w *world) (string, string) {
 	st, cfg := w.snapshot()
 	for _, f := range stateFields {
 		a, b := canonField(f, x.st[f]), canonField(f, st[f])
 		if !reflect.DeepEqual(a, b) {
-			return f, fmt.Sprintf("%s: spec=%s real=%s", f, short(a), short(b))
+			return f, describe(f, a, b)
 		}
 	}
 	if x.cfg != nil {
@@ -203,7 +234,7 @@ func (x *expect) diff(w *world) (string, string) {
 		for _, sec := range []string{"nodeParams", "appParams", "pcParams", "feeMult", "feeMultDefault", "maxMemo", "supported"} {
 			a, b := canon(wc[sec]), canon(cfg[sec])
 			if !reflect.DeepEqual(a, b) {
-				return "cfg." + sec, fmt.Sprintf("cfg.%s: spec=%s real=%s", sec, short(a), short(b))
+				return "cfg." + sec, describe("cfg."+sec, a, b)
 			}
 		}
 	}
